@@ -1647,4 +1647,83 @@ theorem normaliseF_sum {u τ : Rat} {fl : Rat → Rat} (h : FlRel u fl) (hu : u 
       _ ≤ (1 + u) * (1 / (1 - τ)) := mul_le_mul_of_nonneg_left this (by linarith)
       _ = (1 + u) / (1 - τ) := by ring
 
+/-- the key depends on the contents only: same key ⇔ equal contents, for every container flavour -/
+theorem makeHashable_contents (a b : PyAct) : Key.same (makeHashable a) (makeHashable b) = contentsEq a b := by
+  cases a <;> cases b <;> rfl
+
+/-- Python `==` of two offered objects implies one key (what `actions.index`, `a == b_a` and the
+dictionaries rely on) -/
+theorem pyEq_imp_same_key (a b : PyAct) (h : pyEq a b = true) : Key.same (makeHashable a) (makeHashable b) = true := by
+  rw [makeHashable_contents]
+  cases a with
+  | scalar x => cases b <;> simp_all [pyEq, contentsEq]
+  | dense f xs =>
+    cases b with
+    | dense g ys =>
+      simp only [pyEq, contentsEq] at h ⊢
+      split at h
+      · simp at h
+      · exact h
+    | _ => simp_all [pyEq]
+  | sparse f kv =>
+    cases b with
+    | sparse g kw =>
+      simp only [pyEq, contentsEq] at h ⊢
+      split at h
+      · simp only [beq_iff_eq] at h
+        subst h
+        simp [sameItems]
+      · exact h
+    | _ => simp_all [pyEq]
+
+/-- the converse holds except for exactly two flavour pairs -/
+theorem same_key_imp_pyEq (a b : PyAct) (h : Key.same (makeHashable a) (makeHashable b) = true) :
+    pyEq a b = true ∨
+      (∃ xs ys, (a = .dense .list xs ∧ b = .dense .tuple ys) ∨ (a = .dense .tuple xs ∧ b = .dense .list ys)) ∨
+      (∃ kv kw, a = .sparse .odict kv ∧ b = .sparse .odict kw) := by
+  rw [makeHashable_contents] at h
+  cases a with
+  | scalar x => cases b <;> simp_all [pyEq, contentsEq]
+  | dense f xs =>
+    cases b with
+    | dense g ys =>
+      simp only [contentsEq] at h
+      by_cases hc : (f = .list ∧ g = .tuple) ∨ (f = .tuple ∧ g = .list)
+      · right; left
+        rcases hc with ⟨rfl, rfl⟩ | ⟨rfl, rfl⟩
+        · exact ⟨xs, ys, Or.inl ⟨rfl, rfl⟩⟩
+        · exact ⟨xs, ys, Or.inr ⟨rfl, rfl⟩⟩
+      · left; simp [pyEq, hc, h]
+    | _ => simp_all [contentsEq]
+  | sparse f kv =>
+    cases b with
+    | sparse g kw =>
+      simp only [contentsEq] at h
+      by_cases hc : f = .odict ∧ g = .odict
+      · right; right; obtain ⟨rfl, rfl⟩ := hc; exact ⟨kv, kw, rfl, rfl⟩
+      · left; simp [pyEq, hc, h]
+    | _ => simp_all [contentsEq]
+
+/-- the two exceptions are real: `[1,2] == (1,2)` is `False` in Python yet both get the key
+`HashableDense((1,2))`; two OrderedDicts with the same items in different order likewise -/
+theorem same_key_not_pyEq_witness :
+    (Key.same (makeHashable (.dense .list [.num 1, .num 2])) (makeHashable (.dense .tuple [.num 1, .num 2])) = true ∧
+      pyEq (.dense .list [.num 1, .num 2]) (.dense .tuple [.num 1, .num 2]) = false) ∧
+    (Key.same (makeHashable (.sparse .odict [(.str "a", .num 1), (.str "b", .num 2)]))
+        (makeHashable (.sparse .odict [(.str "b", .num 2), (.str "a", .num 1)])) = true ∧
+      pyEq (.sparse .odict [(.str "a", .num 1), (.str "b", .num 2)]) (.sparse .odict [(.str "b", .num 2), (.str "a", .num 1)]) = false) := by
+  decide
+
+theorem Kind.pmfF_tol {fl : Rat → Rat} (h : FlRel (1 / 2 ^ 53) fl) (val : Act → Rat) (k : Kind) (actions : List Act)
+    (hinv : k.Inv) (hne : actions ≠ []) (hnd : actions.Nodup) (hfit : Fits k.arity actions.length) :
+    (∀ p ∈ k.pmfF fl val actions, 0 ≤ p) ∧ |(k.pmfF fl val actions).sum - 1| ≤ 1 / 10000 := by
+  obtain ⟨a, b, c⟩ := Kind.pmfF_sum h (by norm_num) val k actions hinv hne hnd hfit
+  obtain ⟨d1, d2⟩ := double_tol
+  refine ⟨a, abs_le.mpr ⟨by linarith, by linarith⟩⟩
+
+theorem flRel_example : FlRel (1 / 2 ^ 53) (fun x => x * (1 + 1 / 2 ^ 53)) := by
+  intro x
+  have : x * (1 + 1 / 2 ^ 53) - x = (1 / 2 ^ 53) * x := by ring
+  rw [this, abs_mul, abs_of_pos (by positivity : (0 : Rat) < 1 / 2 ^ 53)]
+
 end Coba.C16
